@@ -118,6 +118,13 @@ func badBytes(class string, variant int, own json.RawMessage) (payload string, r
 			`{"content":[{"type":{"nested":true},"text":"t"}]}`,
 			`{"content":[{"type":"resource","resource":{"uri":5,"text":[1]}}]}`,
 			`{"content":[{"type":"text","text":"t","annotations":"x"}],"structuredContent":"s"}`,
+			// variants 12..17: answers to tools/list (the scenario's first call is ListTools) whose tool schemas have odd shapes
+			`{"tools":[{"name":"t","inputSchema":{"type":"object","properties":{"a":{"type":"array","items":[]}}}}]}`,
+			`{"tools":[{"name":"t","inputSchema":{"type":"object","properties":{"a":{"type":"array","items":5}},"required":"a"}}]}`,
+			`{"tools":[{"name":"t","inputSchema":{"type":7,"properties":[],"items":[[]]}}]}`,
+			`{"tools":[{"name":"t","inputSchema":"not-an-object"},{"name":5},null]}`,
+			`{"tools":[{"name":"t","inputSchema":{"type":"object","properties":{"a":{"type":"array","items":[{"type":"number"},{"type":"boolean"}]},"b":{"items":{"items":[]}}}},"annotations":"x"}]}`,
+			`{"tools":"not-an-array"}`,
 		}
 		return fmt.Sprintf(`{"jsonrpc":"2.0","id":%s,"result":%s}`, own, results[variant%len(results)]), false
 	case "truncated":
@@ -417,7 +424,25 @@ func c07Run(sc c07Scenario) (res c07Result) {
 		}
 		return c
 	}
-	res.Call1 = call("one", 1500*time.Millisecond)
+	if sc.Bad == "fieldtype" && sc.Variant%18 >= 12 {
+		// the first call is ListTools: its answer carries tool schemas of odd shapes
+		lctx, lcancel := context.WithTimeout(context.Background(), 1500*time.Millisecond)
+		t0 := time.Now()
+		ldone := make(chan error, 1)
+		go func() { _, e := cl.ListTools(lctx, &mcp.ListToolsRequest{}); ldone <- e }()
+		select {
+		case e := <-ldone:
+			res.Call1 = c07Call{OK: e == nil, Own: e == nil, Ms: float64(time.Since(t0)) / float64(time.Millisecond)}
+			if e != nil {
+				res.Call1.Err = e.Error()
+			}
+		case <-time.After(5500 * time.Millisecond):
+			res.Call1 = c07Call{Err: "call did not return", Ms: float64(time.Since(t0)) / float64(time.Millisecond)}
+		}
+		lcancel()
+	} else {
+		res.Call1 = call("one", 1500*time.Millisecond)
+	}
 	c0 := cpuMs()
 	time.Sleep(300 * time.Millisecond)
 	res.IdleCPU = cpuMs() - c0
